@@ -6,6 +6,7 @@ use std::panic;
 mod field;
 mod strip;
 mod analyze;
+mod defpasses;
 
 pub fn with_catch<F: FnOnce() -> String + panic::UnwindSafe>(f: F) -> String {
     match panic::catch_unwind(f) {
@@ -59,6 +60,20 @@ fn main() {
                 let reply = with_catch(move || analyze::handle(&line));
                 writeln!(out, "{}", reply).unwrap();
                 out.flush().unwrap();
+            }
+        }
+        "defpasses" => {
+            for line in stdin.lock().lines() {
+                let line = line.unwrap();
+                let reply = with_catch(move || defpasses::handle(&line));
+                writeln!(out, "{}", reply).unwrap();
+            }
+        }
+        "curve" => {
+            for line in stdin.lock().lines() {
+                let line = line.unwrap();
+                let reply = with_catch(move || defpasses::curve(&line));
+                writeln!(out, "{}", reply).unwrap();
             }
         }
         "primes" => {
